@@ -9,7 +9,7 @@ import sys
 import time
 import z3
 
-from .mir import MirModule, Place, split_top, match_close, scan, MirParseError
+from .mir import MirModule, Place, split_top, match_close, scan, find_top, MirParseError
 from .srcinfo import SrcInfo
 from .values import *
 
@@ -204,9 +204,11 @@ class FuncIndex:
             self._add(f)
         for line in mod.lines:
             if line.startswith('const ') and line.endswith(';') and ' = const ' in line:
-                m = re.match(r'const (.*?): (.*?) = const (.*);$', line)
-                if m:
-                    self.simple_consts.setdefault(m.group(1).rsplit('::', 1)[-1], set()).add((m.group(2), m.group(3)))
+                body = line[6:-1]
+                k = find_top(body, ': ')
+                e = body.find(' = const ', k if k != -1 else 0)
+                if k != -1 and e != -1:
+                    self.simple_consts.setdefault(body[:k].rsplit('::', 1)[-1], set()).add((body[k + 2:e], body[e + 9:]))
 
     def _add(self, f):
         name = f.name
@@ -1022,6 +1024,11 @@ class Ctx:
         m = re.match(r'^\{alloc\d+: &(.*)\}$', text)
         if m:
             return Ref(Cell(Opaque('static', m.group(1))))
+        if text.startswith('ZeroSized: '):
+            t = text[11:].strip()
+            if t.startswith('{'):
+                return Struct(t, [])
+            return FnItem(t)
         if 'promoted[' in text:
             idx = text[text.rindex('promoted['):]
             owner = f.name
